@@ -220,6 +220,38 @@ func c06Interleave(r *Rand, mode int) *ProgCase {
 	return &ProgCase{P: p, Prop: "C06", Cell_: fmt.Sprintf("interleave m%d", mode)}
 }
 
+// forward shapes: an EQU body that mentions a name defined further down is only
+// partly evaluated when it is stored, and finished where it is used.
+var c06ForwardShapes = []string{"X/2*3", "X%4*3", "X*2/3", "X*2%3", "X/2/3", "X%5%3", "X*2*3", "(X-1)/4*16", "X/2*3-1", "8-X", "8-X-1", "8-X+X", "2*X", "100/X", "100%X*2", "8-X*2", "8-(X-1)",
+	"X+X", "X-X", "3*X-2*X", "(X+1)*(X-1)", "X*X", "X/X+X%X", "1+2*X-3", "X-1-2-3", "100-X-X", "0-X", "(8-X)*2", "2*(8-X)", "X*-2", "X/-2*3", "-7%X*2", "X+Y*2", "Y-X", "8-Y-X", "X*Y/2", "Y/X*X"}
+
+func c06Forward(shape string, x, y int64, mode int, k int) *ProgCase {
+	p := Prog{}
+	if mode == 32 {
+		p.Stmts = append(p.Stmts, PStmt{K: "bits", N: 32})
+	}
+	e := parseExprText(shape)
+	v, ok := e.Eval(map[string]int64{"X": x, "Y": y})
+	if !ok {
+		return nil
+	}
+	text := e.Render(k % 3)
+	val := v.Int64()
+	// A is defined before X and Y; B repeats the shape after them (fully evaluated at once); both must give the value
+	p.Stmts = append(p.Stmts, PStmt{K: "equ", Label: "A", Text: text, N: val, Tag: "equ"})
+	if k%2 == 0 {
+		p.Stmts = append(p.Stmts, PStmt{K: "equ", Label: "A2", Text: "A+1", N: val + 1, Tag: "equ"})
+	}
+	p.Stmts = append(p.Stmts, PStmt{K: "equ", Label: "Y", Text: spellInt(y, k%2), N: y, Tag: "equ"}, PStmt{K: "equ", Label: "X", Text: spellInt(x, (k+1)%2), N: x, Tag: "equ"},
+		PStmt{K: "equ", Label: "B", Text: text, N: val, Tag: "equ"})
+	items := []DItem{{Kind: "num", Num: val, Text: "A"}, {Kind: "num", Num: val, Text: "B"}, {Kind: "num", Num: val, Text: text}}
+	if k%2 == 0 {
+		items = append(items, DItem{Kind: "num", Num: val + 1, Text: "A2"})
+	}
+	p.Stmts = append(p.Stmts, PStmt{K: "data", W: 4, Tag: "d4-forward", Items: items})
+	return &ProgCase{P: p, Prop: "C06", Cell_: fmt.Sprintf("forward %s m%d", shape, mode)}
+}
+
 func init() {
 	props["C06"] = propCheck{run: func(env *Env, rep *Report) {
 		env.InitBaseline()
@@ -237,7 +269,19 @@ func init() {
 				cases = append(cases, c06Program(r, mode))
 			}
 		}
-		rep.Rule = "seeded programs: 0-3 chained EQU definitions, then 2-6 expression trees of depth <= 4 over boundary literals, + - * / %, parentheses, EQU names (reused after appearing inside products and differences) and $, each placed in a seeded operand position " +
+		k := 0
+		for _, sh := range c06ForwardShapes {
+			for _, x := range []int64{17, -17, 5, 0x7fff} {
+				for _, y := range []int64{3, -40} {
+					k++
+					if c := c06Forward(sh, x, y, 16+16*(k%2), k); c != nil {
+						cases = append(cases, c)
+					}
+				}
+			}
+		}
+		rep.Rule = "every forward shape (an EQU body over names defined further down: 37 shapes x 4 x 2 values, also reached through a second EQU) compared with the same shape after the definitions and written in place; " +
+			"seeded programs: 0-3 chained EQU definitions, then 2-6 expression trees of depth <= 4 over boundary literals, + - * / %, parentheses, EQU names (reused after appearing inside products and differences) and $, each placed in a seeded operand position " +
 			"(DB/DW/DD lane, list lane, MOV/ALU immediate, [reg+expr] displacement, RESB expr, ALIGNB expr, EQU body) and rendered in two spacings; plus sums whose constant terms are interleaved differently with $ / an EQU name; " +
 			"oracle: math/big evaluator (precedence, left associativity, truncation toward zero) compared with the value observed in the output through the walker / reference decoder; non-trivial = accepted and all lanes judged; distinct = (mode, number of EQUs, last position) cells"
 		outs := RunCases(env, cases)
